@@ -337,7 +337,9 @@ def to_circuitikz(
                         end_y = ey
 
                 if start_y == end_y:
-                    raise ValueError(f"Expected {start_y=} != {end_y=}")
+                    # A parallel connection with a single path does not branch,
+                    # so there are no vertical wires to draw.
+                    continue
 
                 start_y *= node_height
                 end_y *= node_height
